@@ -6,7 +6,7 @@ use crate::gen::{self, Flavor};
 use crate::json::J;
 use crate::props::c01::check_parsed;
 use crate::props::c11::script_bytes;
-use crate::reflang::{self, probe, Cmd, Machine};
+use crate::reflang::{self, probe, Cmd, Machine, RArea};
 use crate::rng::Rng;
 use crate::runner::{truncate, Property, RunOut, Tier, Violation};
 use crate::scenario::Scenario;
@@ -383,8 +383,35 @@ impl Property for C12 {
                 }
             }
         }
+        // targeted family: the first program jumps (pending jump source, registered labels), then
+        // `clear`, then a longer program that evaluates ♡ / the same label before jumping itself
+        let mut stale_family = false;
+        if rng.chance(12) {
+            stale_family = true;
+            sc.cmds.clear();
+            for _ in 0..rng.usize(0, 2) {
+                sc.cmds.push(Cmd::new(0, rng.usize(1, 3), rng.usize(1, 60), RArea::Nil));
+            }
+            let rounds = rng.usize(2, 3);
+            gen::small_loop_core(rng, &mut sc.cmds, rounds);
+            let heart = sc.cmds.iter().rev().find_map(|c| if let RArea::Leaf(h) = c.area { Some(h) } else { None }).unwrap_or(2);
+            sc.set_knob("second_program_at", sc.cmds.len() as i64);
+            let first_len = sc.cmds.len();
+            let n2 = first_len + rng.usize(1, 6);
+            let special = rng.usize(first_len.saturating_sub(2), n2 - 1);
+            for i in 0..n2 {
+                if i == special {
+                    let area = if rng.chance(60) { RArea::Leaf(13) } else { RArea::Leaf(heart) };
+                    sc.cmds.push(Cmd::new(0, 1, 1, area));
+                } else if rng.chance(30) {
+                    sc.cmds.push(Cmd::new(1, 1, rng.usize(1, 2), RArea::Nil));
+                } else {
+                    sc.cmds.push(Cmd::new(0, rng.usize(1, 2), rng.usize(33, 90), RArea::Nil));
+                }
+            }
+        }
         // a second program after a clear re-uses labels of the first on purpose
-        if rng.chance(25) {
+        if !stale_family && rng.chance(25) {
             let extra = gen::gen_program(rng, &sw, Flavor::InputFree, 6);
             sc.set_knob("second_program_at", sc.cmds.len() as i64);
             sc.cmds.extend(extra);
